@@ -114,9 +114,31 @@ func (C10) Generate(c *Ctx, r *Rand, index int) *Scenario {
 			{S: ".tpl = load(\"tpl.yaml\") | .tpl.labels | [.app, @DI@, @FI@]", Family: "load-update"},
 			{S: ".tpl = load(\"tpl.yaml\") | .tpl | (.n, .labels.app)", Family: "load-update"},
 			{S: ".tpl = load(\"tpl.yaml\") | (.tpl.labels | filename)", Family: "load-update"},
+			// the document on the left of a merge whose right side comes from elsewhere: the result is still that document
+			{S: ". * load(\"tpl.yaml\")", Family: "load-update"},
+			{S: ". *+ load(\"tpl.yaml\")", Family: "load-update"},
+			{S: ". *= load(\"tpl.yaml\")", Family: "load-update"},
+			{S: ". * load(\"tpl.yaml\") | [.n, @DI@, @FI@]", Family: "load-update"},
 		})
 		e.Alts = []string{"."}
 		sc.Meta["extra_file"] = "tpl.yaml"
+		if rs.Chance(1, 2) {
+			// a null document that is not the first of the run: what a merge makes of it comes from the loaded
+			// file alone, its place in the stream is still its own
+			for i := range sc.Files {
+				f := &sc.Files[i]
+				if f.Name == "tpl.yaml" || f.Name == "-" || len(f.Docs) == 0 || !(strings.HasSuffix(f.Name, ".yaml") || strings.HasSuffix(f.Name, ".yml")) {
+					continue
+				}
+				last := f.Docs[len(f.Docs)-1]
+				if cls := PieceClass(last, len(f.Docs)-1); !strings.HasSuffix(last, "\n") || strings.HasPrefix(cls, "comment-only") || cls == "blank" {
+					continue // a separator after a piece without content does not start a second document
+				}
+				if i > 0 || rs.Chance(1, 2) {
+					f.Docs = append(f.Docs, Pick(rs, []string{"---\n~\n", "---\nnull\n"}))
+				}
+			}
+		}
 	}
 	if variant == 0 && sc.MetaString("extra_file") == "" && rs.Chance(1, 40) {
 		// every document carries a value nested deeper than any fixed number of parent hops
